@@ -34,7 +34,7 @@ def histories(ctx):
     if ctx.tier == 'quick':
         scopes = [(KINDS[:2], [], 9, 3000), (KINDS[:2], [100], 8, 3000)]
     else:
-        scopes = [(KINDS, [], 12, 100000), (KINDS, [100], 11, 100000), (KINDS[:2], [100, 100], 10, 60000)]
+        scopes = [(KINDS, [], 12, 40000), (KINDS, [100], 11, 40000), (KINDS[:2], [100, 100], 10, 30000)]
     capped = False
     for kinds, specs, depth, budget in scopes:
         # host 3 cannot be reached: sends skip it; timeout shorter than the speculative delay in one scope member
@@ -43,7 +43,7 @@ def histories(ctx):
             yield (cfg, ops, True, 'exhaustive')
         capped = capped or G.enumerate_orderings.capped
     ctx.exhaustive = not capped
-    n = 700 if ctx.tier == 'quick' else 30000
+    n = 700 if ctx.tier == 'quick' else 8000
     for i in range(n):
         cfg = G.random_cfg(rng, timeout_p=1.0)
         ops = G.random_walk(rng, cfg, rng.randint(4, 20), True, resp_weight=rng.choice([0, 1, 1, 3]))
